@@ -246,6 +246,23 @@ func genEIT() (out []tableCase) {
 			{EventID: 1, StartTime: dvbTimes[2], Duration: time.Hour, RunningStatus: 4, Descriptors: fixLens(ds)},
 			{EventID: 2, StartTime: dvbTimes[3], Duration: time.Minute, RunningStatus: 1, Descriptors: descRot(1, 1)}}}, ref.SecHdr{CNI: true})
 	}
+	// sections at and next to the 4096-byte limit (section_length 4093): 339 events without descriptors are 4086 bytes,
+	// a private descriptor on the last event makes up the rest - the unit spans 23 packets
+	for _, total := range []int{4096, 4095, 4094, 4090, 4060, 4048, 4047} {
+		d := &astits.EITData{ServiceID: uint16(total), TransportStreamID: 2, OriginalNetworkID: 3, LastTableID: 0x4e}
+		for i := 0; i < 339; i++ {
+			d.Events = append(d.Events, &astits.EITDataEvent{EventID: uint16(i), StartTime: dvbTimes[i%len(dvbTimes)], Duration: time.Duration(i%90) * time.Minute, RunningStatus: uint8(i % 8)})
+		}
+		if total-4086 >= 2 {
+			d.Events[338].Descriptors = fixLens([]*astits.Descriptor{{Tag: 0x91, UserDefined: fillBytes(total-4086-2, 0x33)}})
+		} else {
+			d.Events = d.Events[:335+(total-4048)/12] // below: fewer events
+		}
+		if n := len(SecEIT(d, ref.SecHdr{CNI: true})); n > 4096 {
+			panic(fmt.Sprintf("EIT model of %d bytes", n))
+		}
+		mk(fmt.Sprintf("section of about %d bytes", total), d, ref.SecHdr{CNI: true})
+	}
 	for _, t := range dvbTimes {
 		for _, du := range []time.Duration{0, time.Second, 99*time.Hour + 59*time.Minute + 59*time.Second, 12*time.Hour + 34*time.Minute + 56*time.Second} {
 			mk("time", &astits.EITData{ServiceID: 1, Events: []*astits.EITDataEvent{{EventID: 1, StartTime: t, Duration: du, RunningStatus: 1}}}, ref.SecHdr{CNI: true})
